@@ -246,12 +246,14 @@ harness('census', 'engines/fault/census.cpp', 'gcc-asan', libs='-lrapidcheck -lc
 reg(Prop('C20', 'exploration', [
     Sub('rand', 'census', shards=(12, 16), cases=(250, 3000), maxsize=(100, 100), env={'VERIF_SUB': 'rand'}, timeout=(900, 3600)),
     Sub('cycles', 'census', shards=(4, 8), cases=(1, 1), env={'VERIF_SUB': 'cycles'}, timeout=(900, 3600)),
+    Sub('lsan', 'census', shards=(8, 16), cases=(250, 2500), maxsize=(100, 100), env={'VERIF_SUB': 'rand', 'VERIF_LSAN': 1, 'ASAN_OPTIONS': 'detect_leaks=1:leak_check_at_exit=0:abort_on_error=0:allocator_may_return_null=1:handle_abort=0:detect_stack_use_after_return=0'}, timeout=(900, 3600)),
     Sub('fdledger_sm', 'netx', shards=(8, 8), cases=(600, 6000), maxsize=(60, 100), env={'VERIF_SUB': 'rand', 'VERIF_NETX_GEN': 'C10', 'VERIF_LEDGER_ONLY': 1}, timeout=(900, 3600)),
     Sub('fdledger_io', 'netx', shards=(4, 8), cases=(40, 400), maxsize=(60, 100), env={'VERIF_SUB': 'rand', 'VERIF_NETX_GEN': 'C09', 'VERIF_LEDGER_ONLY': 1}, timeout=(900, 3600)),
 ], rule='lifecycle histories: sequences of up to ~14 self-contained episodes over 17 object kinds (trees, list+hash table, INI incl. missing file, hashes, errors, directory iterator incl. missing path, TCP pairs incl. refused connect / timed-out accept / timed-out receive / I/O after close, '
         'UDP incl. receive_from and timed-out receive, socket addresses incl. rejected strings, semaphores with 1-3 handles and owner/non-owner free orders, shm with second handles of equal/smaller/larger size argument and read-only mode, shm buffers incl. failing open on a too-small segment, '
         'joinable/detached threads with TLS keys and values, foreign threads using p_uthread_current, lock objects, library loader incl. missing path and non-library file, libsys shutdown+init), each freeing everything it obtained. '
         'cycles sub-run: 120 (thorough 600) identical create/free cycles per kind x 6 variants. Oracle: after every episode library allocations (tracking allocator), descriptor count and bytes of /dev/shm-backed mappings equal the values before the history; at the end none of the history\'s IPC names exists (names computed independently with SHA-1). '
+        'LeakSanitizer sub-run: the same histories with LeakSanitizer switched on and asked after every history for unreachable blocks - memory the library obtained from libc behind the allocator table (getaddrinfo results, stdio buffers) and dropped. '
         'Descriptor ledger sub-runs (socket state-machine sequences and faulted transfers of the C10 / C09 generators, libc entry points of the library wrapped): every descriptor the library obtains from socket / accept / shm_open is closed by the library exactly once - a close of a descriptor it does not hold, or a descriptor still open after every object was freed, is a violation. '
         'Non-trivial = history with >= 1 failing call, >= 1 IPC object opened through handles with different size arguments, and >= 3 module kinds; distinct = distinct history text.',
     assumptions=['glibc-internal allocations and the loader\'s own mappings are invisible to the census; TLS slot consumption is not part of it (documented: the native key is kept)',
